@@ -89,6 +89,6 @@ def run(ctx):
     # in a rerun history, a run that observes foreign values or returns another result than the isolated meaning breaks C14
     for f in findings:
         it = items[f['item']]
-        if it.get('mode') and f['prop'] in ('C02', 'C03', 'C15', 'C01', 'C04', 'C05'):
+        if it.get('mode') and f['prop'] in ('C02', 'C03', 'C15', 'C01', 'C04', 'C05', 'C07', 'C12', 'C13'):
             rp = {'kind': 'scenario', 'item': {k: it[k] for k in ('wf', 'oc', 'script', 'input', 'inputs', 'schedule', 'extra') if k in it}}
             ctx.add('C14', 'run-of-a-reused-workflow-differs-from-an-isolated-run', '%s:%s %s [history %s]' % (f['prop'], f['rule'], str(f['detail'])[:100], it['mode']), rp)
